@@ -89,9 +89,12 @@ def main():
                 results[mid] = {"property": prop, "status": "pattern-not-found"}
                 print(mid, "PATTERN NOT FOUND")
                 continue
-            t = subprocess.run(["/venv/bin/python", "-m", "pytest", "-q", "-p", "no:cacheprovider", "-o", "addopts=", "tests"], cwd=wt,
-                               env=dict(os.environ, PYTHONPATH=os.path.join(wt, "src")), capture_output=True, text=True)
-            tail = t.stdout.strip().splitlines()[-1] if t.stdout.strip() else ""
+            try:
+                t = subprocess.run(["/venv/bin/python", "-m", "pytest", "-q", "-p", "no:cacheprovider", "-o", "addopts=", "tests"], cwd=wt,
+                                   env=dict(os.environ, PYTHONPATH=os.path.join(wt, "src")), capture_output=True, text=True, timeout=300)
+                tail = t.stdout.strip().splitlines()[-1] if t.stdout.strip() else ""
+            except subprocess.TimeoutExpired:
+                tail = "TESTS HANG (timeout)"
             env = dict(os.environ, VERIF_REPO=wt, VERIF_EVIDENCE_DIR="/tmp/selftest-ev", VERIF_REPLAY_DIR="/tmp/selftest-rp")
             c = subprocess.run(["./check", prop, "quick"], cwd=V, env=env, capture_output=True, text=True)
             viol = [l for l in c.stdout.splitlines() if l.startswith("VIOLATION")]
